@@ -472,8 +472,8 @@ Proof.
     + inversion H; subst. cbn [pmon_final pmon_ev]. rewrite Hf.
       eexists. split; [reflexivity|]. split; [constructor; simpl; auto|intros; discriminate].
     + destruct (sweep (a_proc (oracle (p_run s))) (p_chunks s)) as [[keep n] sev] eqn:Esw.
-      set (m1 := mkPM (w_req m) (w_proc m) false false).
-      assert (Hsw : pmon_final par m1 sev = Some (mkPM (w_req m) (w_proc m + n) false false)).
+      set (m1 := mkPM (w_req m) (w_proc m) true false).
+      assert (Hsw : pmon_final par m1 sev = Some (mkPM (w_req m) (w_proc m + n) true false)).
       { apply (sweep_mon par _ _ _ _ _ m1 Esw). reflexivity. }
       rewrite Hnd in H.
       destruct (a_susp (oracle (p_run s))) eqn:Esusp.
@@ -571,9 +571,9 @@ Fixpoint count_req (l : list pev) : N :=
   match l with [] => 0 | PReq k :: r => k + count_req r | _ :: r => count_req r end.
 Fixpoint count_proc (l : list pev) : N :=
   match l with [] => 0 | PIsProc _ true :: r => 1 + count_proc r | _ :: r => count_proc r end.
-(* the last Suspend() answer since the last Done() call *)
+(* true until Suspend() has answered false since the last Done() call *)
 Fixpoint susp_now (cur : bool) (l : list pev) : bool :=
-  match l with [] => cur | PDone _ :: r => susp_now false r | PSusp b :: r => susp_now b r
+  match l with [] => cur | PDone _ :: r => susp_now true r | PSusp b :: r => susp_now b r
              | PReq _ :: r => susp_now false r | _ :: r => susp_now cur r end.
 
 Definition stopped (l : list pev) : Prop := In (PDone true) l \/ In PTerminated l.
@@ -585,7 +585,7 @@ Definition peer_safe (par : N) (log : list pev) : Prop :=
     (stopped pre -> e = PTerminated) /\
     match e with
     | PReq k => count_req pre + k <= count_proc pre + par     (* window *)
-                /\ susp_now false pre = false                 (* not in a suspended run *)
+                /\ susp_now true pre = false     (* Suspend() was asked in this run and answered false *)
     | _ => True
     end.
 
